@@ -81,14 +81,23 @@ def build(env, recipe, params_as_constants=False):
 def float_ref(env, recipe, point, pvals):
     sc = FloatSc(point, pvals)
     with quiet():
-        v = ElemAlg(sc, env).ev(recipe)
+        try:
+            v = ElemAlg(sc, env).ev(recipe)
+        except OverflowError:
+            sc.ok = False  # outside the judged (finite) regime
+            v = None
     return v, sc
 
 
 def jet_ref(env, recipe, order, point, pvals, second=True):
     sc = JetSc(order, point, pvals, second=second)
     with quiet():
-        j = ElemAlg(sc, env).ev(recipe)
+        try:
+            j = ElemAlg(sc, env).ev(recipe)
+        except OverflowError:
+            # Python float ** raises instead of returning inf: the point is outside the judged (finite) regime
+            sc.ok = False
+            j = None
     return j, sc
 
 
